@@ -207,7 +207,7 @@ def BWR2(m, m0, g0, q2, q02, L, d):
     bw_x = tf.math.real(d)
     bw_y = tf.math.imag(d)
     bw_r2 = bw_x * bw_x + bw_y * bw_y
-    ret = tf.complex(bw_x / bw_r2, bw_y / bw_r2)
+    ret = tf.complex(bw_x / bw_r2, -bw_y / bw_r2)
     return ret
 
 
